@@ -1,7 +1,7 @@
 (* Props/C07.v -- property C07: absent derivative parts behave exactly like all-zero derivative parts.
    veq x y : every part of x and y has the same numerical value (an absent part reads as zero), whatever representation
    each uses.  Written by tools/coqgen/gen_c07.py; only statements, `exact` proofs and the axiom report. *)
-From ND Require Import Tactics C02_proofs C01_towers C01_faa C07_proofs C07_inst.
+From ND Require Import Tactics C02_proofs C01_towers C01_faa C09_proofs C09_faa C07_proofs C07_inst.
 Local Open Scope R_scope.
 
 Theorem C07_cong_DualVec_add : forall a a' b b' : DualVec R, veq_DualVec a a' -> veq_DualVec b b' -> veq_DualVec (a + b)%rs (a' + b')%rs.
@@ -60,6 +60,10 @@ Theorem C07_cong_DualVec_acosh : forall x x' : DualVec R, (fun r : R => 1 < r) (
 Proof. exact cong_DualVec_acosh. Qed.
 Theorem C07_cong_DualVec_atanh : forall x x' : DualVec R, (fun r : R => -1 < r < 1) (DualVec_f_re x) -> veq_DualVec x x' -> veq_DualVec (m_atanh x) (m_atanh x').
 Proof. exact cong_DualVec_atanh. Qed.
+Theorem C07_cong_DualVec_powi : forall (n : Z) (x x' : DualVec R), veq_DualVec x x' -> veq_DualVec (m_powi x n) (m_powi x' n).
+Proof. exact cong_DualVec_powi. Qed.
+Theorem C07_cong_DualVec_powf : forall (n : R) (x x' : DualVec R), veq_DualVec x x' -> veq_DualVec (m_powf x n) (m_powf x' n).
+Proof. exact cong_DualVec_powf. Qed.
 Theorem C07_cong_Dual2Vec_add : forall a a' b b' : Dual2Vec R, veq_Dual2Vec a a' -> veq_Dual2Vec b b' -> veq_Dual2Vec (a + b)%rs (a' + b')%rs.
 Proof. exact cong_Dual2Vec_add. Qed.
 Theorem C07_cong_Dual2Vec_sub : forall a a' b b' : Dual2Vec R, veq_Dual2Vec a a' -> veq_Dual2Vec b b' -> veq_Dual2Vec (a - b)%rs (a' - b')%rs.
@@ -116,6 +120,10 @@ Theorem C07_cong_Dual2Vec_acosh : forall x x' : Dual2Vec R, wf_Dual2Vec x -> wf_
 Proof. exact cong_Dual2Vec_acosh. Qed.
 Theorem C07_cong_Dual2Vec_atanh : forall x x' : Dual2Vec R, wf_Dual2Vec x -> wf_Dual2Vec x' -> (fun r : R => -1 < r < 1) (Dual2Vec_f_re x) -> veq_Dual2Vec x x' -> veq_Dual2Vec (m_atanh x) (m_atanh x').
 Proof. exact cong_Dual2Vec_atanh. Qed.
+Theorem C07_cong_Dual2Vec_powi : forall (n : Z) (x x' : Dual2Vec R), wf_Dual2Vec x -> wf_Dual2Vec x' -> veq_Dual2Vec x x' -> veq_Dual2Vec (m_powi x n) (m_powi x' n).
+Proof. exact cong_Dual2Vec_powi. Qed.
+Theorem C07_cong_Dual2Vec_powf : forall (n : R) (x x' : Dual2Vec R), wf_Dual2Vec x -> wf_Dual2Vec x' -> veq_Dual2Vec x x' -> veq_Dual2Vec (m_powf x n) (m_powf x' n).
+Proof. exact cong_Dual2Vec_powf. Qed.
 Theorem C07_cong_HyperDualVec_add : forall a a' b b' : HyperDualVec R, veq_HyperDualVec a a' -> veq_HyperDualVec b b' -> veq_HyperDualVec (a + b)%rs (a' + b')%rs.
 Proof. exact cong_HyperDualVec_add. Qed.
 Theorem C07_cong_HyperDualVec_sub : forall a a' b b' : HyperDualVec R, veq_HyperDualVec a a' -> veq_HyperDualVec b b' -> veq_HyperDualVec (a - b)%rs (a' - b')%rs.
@@ -172,6 +180,10 @@ Theorem C07_cong_HyperDualVec_acosh : forall x x' : HyperDualVec R, wf_HyperDual
 Proof. exact cong_HyperDualVec_acosh. Qed.
 Theorem C07_cong_HyperDualVec_atanh : forall x x' : HyperDualVec R, wf_HyperDualVec x -> wf_HyperDualVec x' -> (fun r : R => -1 < r < 1) (HyperDualVec_f_re x) -> veq_HyperDualVec x x' -> veq_HyperDualVec (m_atanh x) (m_atanh x').
 Proof. exact cong_HyperDualVec_atanh. Qed.
+Theorem C07_cong_HyperDualVec_powi : forall (n : Z) (x x' : HyperDualVec R), wf_HyperDualVec x -> wf_HyperDualVec x' -> veq_HyperDualVec x x' -> veq_HyperDualVec (m_powi x n) (m_powi x' n).
+Proof. exact cong_HyperDualVec_powi. Qed.
+Theorem C07_cong_HyperDualVec_powf : forall (n : R) (x x' : HyperDualVec R), wf_HyperDualVec x -> wf_HyperDualVec x' -> veq_HyperDualVec x x' -> veq_HyperDualVec (m_powf x n) (m_powf x' n).
+Proof. exact cong_HyperDualVec_powf. Qed.
 
 (* non-vacuity: an absent gradient and an explicit zero gradient are numerically the same and both well formed *)
 Example C07_absent_is_zero :
@@ -208,6 +220,8 @@ Definition C07_bundle := (C07_cong_DualVec_add,
   C07_cong_DualVec_asinh,
   C07_cong_DualVec_acosh,
   C07_cong_DualVec_atanh,
+  C07_cong_DualVec_powi,
+  C07_cong_DualVec_powf,
   C07_cong_Dual2Vec_add,
   C07_cong_Dual2Vec_sub,
   C07_cong_Dual2Vec_neg,
@@ -236,6 +250,8 @@ Definition C07_bundle := (C07_cong_DualVec_add,
   C07_cong_Dual2Vec_asinh,
   C07_cong_Dual2Vec_acosh,
   C07_cong_Dual2Vec_atanh,
+  C07_cong_Dual2Vec_powi,
+  C07_cong_Dual2Vec_powf,
   C07_cong_HyperDualVec_add,
   C07_cong_HyperDualVec_sub,
   C07_cong_HyperDualVec_neg,
@@ -263,5 +279,7 @@ Definition C07_bundle := (C07_cong_DualVec_add,
   C07_cong_HyperDualVec_tanh,
   C07_cong_HyperDualVec_asinh,
   C07_cong_HyperDualVec_acosh,
-  C07_cong_HyperDualVec_atanh).
+  C07_cong_HyperDualVec_atanh,
+  C07_cong_HyperDualVec_powi,
+  C07_cong_HyperDualVec_powf).
 Print Assumptions C07_bundle.
